@@ -15,14 +15,35 @@ func c13Cfg() *DeclCfg {
 		{K: KString, W: WSlice}, {K: KInt, W: WSlice}, {K: KString, W: WPtr}, {K: KString, W: WMap, MapKey: KString}, {K: KInt, W: WMap, MapKey: KString}, {K: KString, W: WFunc1}, {W: WFunc0}, {K: KInt, W: WFunc1Err}}
 	return &DeclCfg{
 		MaxDepth: 2, MaxFan: 2, PCmds: 65, Types: types, OptsMin: 2, OptsMax: 4, SubGroupsMax: 2, NestMax: 2,
-		PInline: 25, PCmdTwin: 20, PNoIni: 12, PDupField: 25, PNamespace: 40, PShortOnly: 15, PLongOnly: 15, PDefault: 20, PBase: 20, PHidden: 5, PNoUnquote: 10, PChoices: 8,
+		PInline: 25, PCmdTwin: 20, PInitial: 25, PNoIni: 12, PDupField: 25, PNamespace: 40, PShortOnly: 15, PLongOnly: 15, PDefault: 20, PBase: 20, PHidden: 5, PNoUnquote: 10, PChoices: 8,
 		PExec: 30, PByTag: 50, PSubOptional: 100, PAliases: 10, PIniName: 35, NonASCII: true,
 		ParserOpts: []flags.Options{0, flags.HelpFlag, flags.PassDoubleDash}, NsDelims: []string{"", ".", "-"},
 	}
 }
 
 // groupTree lists the options reachable from group g (g and its nested groups), in declaration order.
-func groupTree(g *Grp) []*Opt { return allOptsOf(g) }
+func groupTree(g *Grp) []*Opt {
+	// the library visits a group's own options first - including those of untagged nested structs, which are
+	// scanned into the same group - and then its sub-groups, in declaration order
+	var own []*Opt
+	var subs []*Grp
+	var collect func(x *Grp)
+	collect = func(x *Grp) {
+		own = append(own, x.Opts...)
+		for _, sg := range x.Subs {
+			if sg.Inline {
+				collect(sg)
+			} else {
+				subs = append(subs, sg)
+			}
+		}
+	}
+	collect(g)
+	for _, sg := range subs {
+		own = append(own, groupTree(sg)...)
+	}
+	return own
+}
 
 // bestIniMatch applies the stated priority inside one group tree: ini-name (case-insensitively) > field name >
 // namespaced long name > short name; the first declared wins among equals. visibleOnly leaves out no-ini options.
